@@ -24,6 +24,7 @@ FIXED = [
  ("C03","504480d","C03:dictstack:state:value:{dict}","`{/add} bind` replaced the literal name /add by the operator"),
  ("C11","cb678c3","C11:budget:counted-past-N+1","budget tripping inside a procedure run by an operator executed the interrupt handler: NumOps reached N+2.., and on a full operand stack the budget error was replaced by stackoverflow (`1 2 add {3} exec` with N=6)"),
  ("C11","bef94a8","C11:crash:growth:/r {r 1} def r","`/r {r 1} def r` without budget recursed in Go until the goroutine stack was exhausted (process death); name calls now count towards execstackoverflow"),
+ ("C17","6fa95a8","C17:order-dependent:Metrics.Write","afm.Metrics.Write ranged over the ligature map directly: two ligatures on one glyph were written in either order"),
  ("C16","c23956e","C16:glyphlist:multi-code-entry-maps-to-U+0000","the 81 glyph list entries denoting several characters mapped to U+0000 (ToUnicode(\"dalethatafpatah\") = [0000] instead of [05D3 05B2])"),
 ]
 OPEN = [
